@@ -248,6 +248,102 @@ def oracle(ctx, bases, compiler=None):
     return failures, known_hits, stats
 
 
+# ---- speculative line breaks OUTSIDE brackets ------------------------------------------------------
+# A line break outside brackets normally ends the statement.  Wherever the compiler nevertheless reads the next
+# line as a continuation of the SAME statement (none today; any future "this line continues the previous one"
+# rule), the broken expression is one expression, and putting it in (redundant) parentheses -- where the line
+# break is insignificant by the bracket rule -- must not change the Lua.
+
+_SPEC_LINE = re.compile(r"^(\s+)((?:\w+(?:: \w+)? (?::=|::|=|\+=|-=|\*=) )|ret )?([^\n]+)$")
+_STMT_HEADS = ("def", "sexpr", "assign", "ret", "loop", "break", "continue", "block", "if", "case", "unreachable", "use")
+
+
+def _depth0_spaces(expr):
+    out, depth = [], 0
+    for i, c in enumerate(expr):
+        if c in "([{":
+            depth += 1
+        elif c in ")]}":
+            depth -= 1
+        elif c == " " and depth == 0 and 0 < i < len(expr) - 1:
+            out.append(i)
+    return out
+
+
+def speculative_pairs(text, r, k):
+    """up to k triples (what, V, P): V = text with one line break inserted at bracket depth 0 inside a one-line
+    expression, P = V with that (now two-line) expression in parentheses"""
+    lines = text.split("\n")
+    cands = []
+    for i, line in enumerate(lines):
+        m = _SPEC_LINE.match(line)
+        if not m or any(x in line for x in ("'", '"', "//", " do", " fn", "\t", "\r", "<=>", "<!>")):
+            continue
+        ind, head, expr = m.group(1), m.group(2) or "", m.group(3)
+        if expr.split(" ")[0] in ("if", "loop", "do", "end", "else", "elif", "case", "break", "continue", "use", "from"):
+            continue
+        for pos in _depth0_spaces(expr):
+            cands.append((i, ind, head, expr, pos))
+    r.shuffle(cands)
+    # positions directly before `->` first: that is where a continuation rule is most likely to appear
+    cands.sort(key=lambda c: not c[3][c[4] + 1:].startswith("->"))
+    out = []
+    for i, ind, head, expr, pos in cands[:k]:
+        broken = expr[:pos] + "\n" + ind + "    " + expr[pos + 1:]
+        v = "\n".join(lines[:i] + [ind + head + broken] + lines[i + 1:])
+        pp = "\n".join(lines[:i] + [ind + head + "(" + broken + ")"] + lines[i + 1:])
+        out.append(("line %d, break before %r" % (i + 1, expr[pos + 1:pos + 4]), v, pp))
+    return out
+
+
+def _stmt_count(tree_line):
+    if not tree_line.startswith("TREE"):
+        return None
+    txt = vlib.unhex(tree_line.split(" ")[1]).decode()
+    return sum(len(re.findall(r"\(%s@" % h, txt)) for h in _STMT_HEADS)
+
+
+def speculative(ctx, bases):
+    """failures of the speculative-break class on the real compiler (generated bases only)"""
+    r = vlib.rng(ctx.seed, "c14-spec")
+    trip = []
+    for k, (bid, kind, payload) in enumerate(bases):
+        if kind != "gen":
+            continue
+        for style in (G.Style(), G.Style(ctx.seed * 31 + k, arrow=True)):
+            text = G.render_program(payload, style)
+            for what, v, pp in speculative_pairs(text, r, 3):
+                trip.append((bid, what, text, v, pp))
+    if not trip:
+        return [], {"pairs": 0}
+    cases = []
+    for bid, what, text, v, pp in trip:
+        cases += [compile_case("/main.sy", text, "nostd"), compile_case("/main.sy", v, "nostd"), compile_case("/main.sy", pp, "nostd")]
+    lua = vlib.harness("compile", cases, timeout_s=20)
+    trees = vlib.harness("tree", [noise_gen_case(t) for tr in trip for t in (tr[2], tr[3])], timeout_s=20)
+    fails = []
+    stats = {"pairs": len(trip), "broken_form_accepted": 0, "accepted_as_one_statement": 0}
+    for j, (bid, what, text, v, pp) in enumerate(trip):
+        ob, ov, op = (outcome(x) for x in lua[3 * j:3 * j + 3])
+        if ob[0] != "OK" or ov[0] != "OK":
+            continue
+        stats["broken_form_accepted"] += 1
+        nb, nv = _stmt_count(trees[2 * j]), _stmt_count(trees[2 * j + 1])
+        if nb is None or nb != nv:
+            continue                      # the line break split the statement in two: the parentheses would not be redundant
+        stats["accepted_as_one_statement"] += 1
+        if op != ov:
+            fails.append({"base": bid, "variant": "spec-break", "class": None, "program": None, "flags": "nostd", "main": "/main.sy",
+                          "what": "a line break outside brackets is read as a continuation (%s), and redundant parentheses around "
+                                  "the continued expression change the result (%s)" % (what, "rejected" if op[0] != "OK" else "different Lua"),
+                          "base_text": v, "variant_text": pp})
+    return fails, stats
+
+
+def noise_gen_case(text):
+    return "\t".join(["nostd", "/main.sy", "/main.sy=" + vlib.hexs(text)])
+
+
 # ------------------------------------------------------------------------------------------------
 # tie: parser model vs real parser on every statement in every surface form
 
@@ -348,6 +444,9 @@ def always(ctx):
     """the byte-level oracle on the real compiler (no model involved)"""
     bases = getattr(ctx, "c14_bases", None) or gen_bases(ctx)
     failures, known_hits, stats = oracle(ctx, bases)
+    sp_fail, sp_stats = speculative(ctx, bases)
+    failures = failures + sp_fail
+    stats["speculative_breaks"] = sp_stats
     ctx.c14_oracle = (failures, known_hits)
     if failures:
         f = failures[0]
